@@ -30,7 +30,15 @@ def perm_tet(rng, c):
 def seed_mesh(rng):
     """(kind, verts, faces, cells, wellformed) - wellformed: manifold-ish input on which connectivity queries make sense"""
     k = rng.choice(["tri", "tri", "quad", "poly", "fan", "tet1", "tet2", "tet5", "tet6", "hex1", "hex2", "mixed",
-                    "tetchain", "line", "points", "soup", "cellsoup"])
+                    "tetchain", "line", "points", "soup", "cellsoup"] * 3 + ["bigindex"])
+    if k == "bigindex":
+        # indices beyond 256 (small-int identity, uint8 range): a strip of triangles / one tetrahedron among 300 vertices
+        n = 300
+        v = [[i % 17, i // 17, (i * 7) % 5] for i in range(n)]
+        base = rng.choice([250, 255, 256, 257, 290])
+        if rng.random() < 0.5:
+            return k, v, [[base, base + 1, base + 2], [base + 1, base + 3, base + 2], [0, base, base + 2]], [], True
+        return k, v, [], [perm_tet(rng, (base, base + 1, base + 2, base + 3)), perm_tet(rng, (base + 1, base + 2, base + 3, 0))], True
     if k in ("tri", "quad"):
         nu, nv = rng.randint(2, 4), rng.randint(2, 4)
         v, f = grid(nu, nv, k == "tri")
@@ -139,6 +147,10 @@ def gen_case(rng, quick=True):
     edges = []
     sides = face_sides(faces)
     mode = rng.choice(["none", "none", "some", "some", "all", "chords", "bad", "bad"])
+    if kind == "bigindex":
+        # declared edges among the big indices: a self-loop (equal values held by distinct int objects), a valid edge
+        b0 = max(x for rows in (faces, cells) for r in rows for x in r)
+        edges += [[b0, b0], [b0 - 1, b0], [nv, b0 - 2], [b0 - 2, 299]]
     if kind == "line":
         edges = [[i, i + 1] if rng.random() < 0.6 else [i + 1, i] for i in range(nv - 1)]
         if rng.random() < 0.3 and nv > 2:
@@ -177,7 +189,7 @@ def gen_case(rng, quick=True):
             name = rng.choice(["w", "w", "label", "hard_edges"]) if j == 0 else "second"
             if any(a["name"] == name for a in eattrs):
                 continue
-            default = None if rng.random() < 0.6 else (rng.randint(1, 9) if ty == "int" else 1)
+            default = None if rng.random() < 0.5 else (rng.choice([0, 0, rng.randint(1, 9)]) if ty == "int" else rng.randint(0, 1))
             rv = (lambda: rng.randint(-3, 12)) if ty == "int" else (lambda: rng.randint(0, 1))
             if rng.random() < 0.5:
                 eattrs.append({"name": name, "dense": True, "default": default, "type": ty,
@@ -200,6 +212,8 @@ def gen_case(rng, quick=True):
     # coordinates in quarter units; points of width 3, 2 (padded with z=0 by every route) or, rarely, 1
     jitter = rng.random() < 0.3
     verts = [[4 * x + (rng.randint(0, 3) if jitter else 0) for x in v] for v in verts]
+    if rng.random() < 0.08:
+        verts = [[8, 8, 8] for _ in verts]      # all vertices coincide: the property is combinatorial
     vints = rng.random() < 0.4
     width = rng.choice([3] * 6 + [2] * 3 + [1])
     mixed = width == 2 and rng.random() < 0.2
@@ -223,10 +237,32 @@ def gen_case(rng, quick=True):
         routes.append("save_" + rng.choice(["obj", "off", "mesh", "geogram_ascii"]))
     rewraps = rng.choice([0, 1, 1, 2])
     edits = gen_edits(rng, rewraps, len(verts), faces, cells)
-    case = {"edits": edits, "kind": kind, "verts": verts, "vints": vints, "edges": edges, "faces": faces, "cells": cells,
+    # a construction that raises (completion off, a cell's face not supplied), then the faces are supplied to the very same
+    # raw data object and it is built again
+    missing = []
+    if cells and not cfg[0]:
+        have = {tuple(sorted(f)) for f in faces}
+        for c in cells:
+            for f in (TET_T(c) if len(c) == 4 else HEX_T(c)):
+                if tuple(sorted(f)) not in have:
+                    have.add(tuple(sorted(f)))
+                    missing.append(list(f))
+    if missing:
+        rewraps = max(rewraps, 1)
+        supplied = missing if rng.random() < 0.7 else missing[:len(missing) // 2]
+        edits = [[["add_face", f] for f in supplied]] + [[] for _ in range(rewraps - 1)]
+        routes = [r for r in routes if r in ("list", "tuple", "numpy", "append")]
+    for es in edits:
+        if rng.random() < 0.2:
+            es.insert(rng.randint(0, len(es)), ["peek"])
+    extra = {"peek": rng.choice([None, None, None, 0, 1, 2, 3, 4]), "prep_calls": rng.choice([0, 0, 0, 1, 2]),
+             "callform": rng.randrange(12), "twin": rng.random() < 0.3,
+             "idtype": rng.choice(["int64", "int64", "int32", "uint8", "pyint"]), "cfgrepr": rng.randrange(3),
+             "dimrepr": rng.random() < 0.3}
+    case = {**extra, "edits": edits, "kind": kind, "verts": verts, "vints": vints, "edges": edges, "faces": faces, "cells": cells,
             "eattrs": eattrs, "cfg": cfg, "dim": dim, "routes": routes, "rewraps": rewraps, "malformed": malformed or not wf,
             "script": []}
-    quiet = all(e[0] in ("clear_fc", "clear_cc", "clear_cf") for es in edits for e in es)
+    quiet = all(e[0] in ("clear_fc", "clear_cc", "clear_cf", "peek") for es in edits for e in es)
     if width != 1:   # 1-D points: construction only (writers and geometry expect at least planar points)
         case["script"] = gen_script(rng, case, connectivity=bool(wf and cfg == [True, True] and quiet and dim is None
                                                                  and (mode in ("none", "some", "all") or kind == "line")))
